@@ -1492,6 +1492,7 @@ fn caller_plans(single: &Obs, k: usize, thorough: bool) -> Vec<Vec<CallerPlan>> 
 fn main() {
     // a stack overflow / abort in the code under test must become a verdict, not a dead check
     vcore::supervise("C18");
+    vcore::install_log_evaluation(); // logging is part of the environment: log arguments are evaluated as under a real subscriber
     let ctx = Ctx::from_args("C18", "fault_enumeration");
     let thorough = !ctx.quick();
 
